@@ -113,6 +113,16 @@ impl Recorder {
         if let Out::Faulted(_, m) = out {
             self.shape.add_str(m);
         }
+        if let Out::Multi { answers, completed } = out {
+            self.shape.add(*completed as u64);
+            for (a, more) in answers.iter().take(12) {
+                self.shape.add(match a {
+                    MultiAns::Definite(_) => 1,
+                    MultiAns::Ambiguous(_) => 2,
+                    MultiAns::Floundered => 3,
+                } + 4 * (*more as u64));
+            }
+        }
         self.shape.add(st.sc_false.min(3));
         self.shape.add(st.callbacks.min(8));
         let rendered = fmt_out(out);
